@@ -183,7 +183,8 @@ def impl(case):
     obs = {'construct': 'ok', 'order': order, 'requests': []}
     for method, path, accept in case['requests']:
         bits = [br.match_path('/' + path.lstrip('/')) is not None for br in app.routes]
-        r = wsgi.get(app, path, method=method, query='q=1', headers={'Accept': accept} if accept else None)
+        qs = ['q=1', '', 'x=\xff\xfe', 'a=%zz&b=+'][(len(path) + len(method)) % 4]      # incl. raw non-UTF-8 bytes (F13)
+        r = wsgi.get(app, path, method=method, query=qs, headers={'Accept': accept} if accept else None)
         if r.exc is not None:
             o = ['escape', type(r.exc).__name__]
         elif r.header('X-Reroute') is not None:
